@@ -2,6 +2,7 @@ package props
 
 import (
 	"encoding/json"
+	"math/big"
 	"fmt"
 	"os"
 	"sort"
@@ -10,6 +11,7 @@ import (
 	"time"
 
 	"verif/harness/core"
+	"verif/harness/obs"
 	"verif/harness/pump"
 	"verif/harness/sandbox"
 	"verif/harness/tamper"
@@ -156,6 +158,46 @@ func c05Catalogue(ctx *core.Ctx) ([]FaultCase, error) {
 				fc.Sc.Strategy = fmt.Sprintf("devdup:%d", dev)
 				if ws.Kind == "P" {
 					for _, g := range recipientsOf(sc, ws.Type, dev) {
+						fc.To = g
+						break
+					}
+				}
+				cases = append(cases, fc)
+			}
+			// (i) another representative of the same residue class (value + q, value + 8q: still the same number modulo the
+			// group order) and (ii) a late duplicate with altered content (after the recipient has left the round that
+			// awaits the type): neither need be rejected, but whatever the honest parties output must still be valid
+			qHex := obs.Secp.Order().Text(16)
+			if !sc.Proto.IsEcdsa() {
+				qHex = obs.Ed.Order().Text(16)
+			}
+			q8 := new(big.Int)
+			q8.SetString(qHex, 16)
+			q8Hex := new(big.Int).Lsh(q8, 3).Text(16)
+			for fi_, f := range ws.Fields {
+				if f.IsList || len(f.Sizes) == 0 || f.Sizes[0] > 33 || f.Sizes[0] == 0 {
+					continue // scalars only (shares, responses, partial signatures, coordinates)
+				}
+				if !ctx.Thorough() && r.base.cost > 1 && (fi_+ti)%2 != rot%2 {
+					continue
+				}
+				for k, hx := range []string{qHex, q8Hex} {
+					fc := FaultCase{Sc: sc, Dev: devs[(k*2)%3], Type: ws.Type, Equiv: true, Spec: tamper.Spec{Field: f.Name, Kind: "add", Hex: hx}}
+					if ws.Kind == "P" {
+						for _, g := range recipientsOf(sc, ws.Type, fc.Dev) {
+							fc.To = g
+							break
+						}
+					}
+					cases = append(cases, fc)
+				}
+			}
+			if len(fis) > 0 {
+				f := fis[(rot+ti)%len(fis)]
+				fc := FaultCase{Sc: sc, Dev: devs[0], Type: ws.Type, Replace: true, ReplaceLate: true, Equiv: true, Spec: tamper.Spec{Field: f.name, Index: f.idx, Kind: "plus1"}}
+				fc.Sc.Strategy = fmt.Sprintf("devduplate:%d", devs[0])
+				if ws.Kind == "P" {
+					for _, g := range recipientsOf(sc, ws.Type, fc.Dev) {
 						fc.To = g
 						break
 					}
@@ -312,7 +354,7 @@ func judgeFault(fc FaultCase, o *FaultOutcome) [][2]string {
 			}
 		}
 	}
-	if fc.Type != "" && fc.Mirror == 0 && fc.RawWire == "" && o.Applied && o.Changed {
+	if fc.Type != "" && fc.Mirror == 0 && fc.RawWire == "" && o.Applied && o.Changed && !fc.Equiv {
 		snd := sendersOf(fc.Sc, fc.Type)
 		unc, _ := uncovered(fc.Sc.Proto, fc.Type, fc.Spec.Field, fc.Dev == snd[0])
 		if !unc {
